@@ -862,6 +862,82 @@ func checkLine(ln *Line, o options) result {
 		}
 	}
 
+	// count-check (C08, caches): "Count equals the live-entry count right after DeleteExpired and is 0 right after
+	// Clear" under concurrency, in the only form that is sound while other calls are in flight: a Count that a thread
+	// makes as its very next call after its own Clear / DeleteExpired may report at most
+	//   after Clear:         one entry per call of ANOTHER thread that can store an entry and had not returned when the
+	//                        Clear was invoked;
+	//   after DeleteExpired: everything that can possibly be present (entries of the setup + keys other calls can
+	//                        insert) MINUS the entries that had expired before the concurrent phase began and whose key
+	//                        no call of the phase names (the pass must have removed those: nobody else touches them).
+	{
+		stores := func(op string) bool {
+			switch op {
+			case "Set", "SetDefault", "SetForever", "GetOrSet", "GetAndSet", "GetOrCompute", "Compute", "GetAndRefresh",
+				"Store", "LoadOrStore", "LoadAndStore", "LoadOrCompute":
+				return true
+			}
+			return false
+		}
+		named := map[int]bool{}
+		for idx := range ln.History {
+			if keyed(ln.History[idx].Op.Op) {
+				named[ln.History[idx].Op.K] = true
+			}
+		}
+		for idx := range ln.History {
+			c := &ln.History[idx]
+			if c.Sub != 0 || (c.Op.Op != "Count" && c.Op.Op != "Size") || c.Ret < 0 || c.Res.N == nil || c.I == 0 {
+				continue
+			}
+			var prev *HEntry
+			for j := range ln.History {
+				h := &ln.History[j]
+				if h.Sub == 0 && h.T == c.T && h.I == c.I-1 {
+					prev = h
+				}
+			}
+			if prev == nil || prev.Ret < 0 {
+				continue
+			}
+			switch prev.Op.Op {
+			case "Clear":
+				ub := int64(0)
+				for j := range ln.History {
+					w := &ln.History[j]
+					if w.Sub == 0 && w.T != c.T && stores(w.Op.Op) && (w.Ret < 0 || w.Ret > prev.Inv) && w.Inv < c.Ret {
+						ub++
+					}
+				}
+				if *c.Res.N > ub {
+					viol("count-check: t%d[%d] %s = %d right after its own Clear, but at most %d entries can have been stored since", c.T, c.I, c.Op.Op, *c.Res.N, ub)
+				}
+			case "DeleteExpired":
+				if !sp.cache {
+					continue
+				}
+				possible := map[int]bool{}
+				gone := 0
+				for _, e := range init.ents {
+					possible[e.k] = true
+					if !sp.live(e) && !named[e.k] {
+						gone++
+					}
+				}
+				for j := range ln.History {
+					w := &ln.History[j]
+					if stores(w.Op.Op) {
+						possible[w.Op.K] = true
+					}
+				}
+				ub := int64(len(possible) - gone)
+				if *c.Res.N > ub {
+					viol("count-check: t%d[%d] Count = %d right after its own DeleteExpired, but %d entries that had expired before and that nobody touches must be gone (at most %d present)", c.T, c.I, *c.Res.N, gone, ub)
+				}
+			}
+		}
+	}
+
 	// final-state (maps): size, range and loads must agree
 	if ln.Final != nil && !sp.cache {
 		f := ln.Final
